@@ -1,5 +1,93 @@
-import FcpptModel.Spec.C05
-import FcpptModel.Model.C05
-/-! Property theorems for C05 — under construction. -/
+import FcpptProofs.C05.Sound
+/-!
+# C05 — property theorems: generic operations conserve values
+
+Registry (`Op.all`, programs in FcpptModel/Model/C05.lean): algorithm::map, fold, fold_break, map_concat, map_optional, reverse,
+container::join (2 and 3 containers), pop_back, pop_front, make_move_range (driven by algorithm::map), move_clear,
+get_or_insert, get_or_insert_with_result.
+
+Every theorem is stated for **every** registered operation `o` and **every** well-formed input
+`inp` (`wf o inp`: value categories the operation accepts, pairwise distinct identities below 100,
+answer tables of the right length) — containers of every size.  `outcome o inp` is the observation
+(FcpptModel/Spec/C05.lean) of running the operation's transfer program.
+Only theorems and examples live in this file; lemmas are in `FcpptProofs/C05/`.
+-/
 namespace Fcppt.C05
+
+/-- **No element of an argument passed as an rvalue is ever copied.** -/
+theorem rvalue_no_copy (o : Op) (inp : Input) (h : wf o inp = true) : (outcome o inp).NoCopyOfRvalue :=
+  safe_noCopyOfRvalue (wf_ids h) (prog_safe o inp h)
+
+/-- **Every element is move-constructed out of its argument at most once.** -/
+theorem rvalue_moved_at_most_once (o : Op) (inp : Input) (h : wf o inp = true) : (outcome o inp).MovedAtMostOnce :=
+  safe_movedAtMostOnce (wf_ids h) (prog_safe o inp h)
+
+/-- **No object is read, copied or moved after it was moved from.** -/
+theorem no_read_after_move (o : Op) (inp : Input) (h : wf o inp = true) : (outcome o inp).NoReadAfterMove :=
+  safe_noReadAfterMove (prog_safe o inp h)
+
+/-- **An argument passed as `T&` or `T const&` is left exactly as it was** (same identities, same order, all live). -/
+theorem lvalue_unchanged (o : Op) (inp : Input) (h : wf o inp = true) : (outcome o inp).LvalueUnchanged :=
+  safe_lvalueUnchanged (prog_safe o inp h)
+
+/-- **Every element is live at most once afterwards** (arguments and result together), plus once per copy —
+and copies are copies of lvalue arguments (`rvalue_no_copy`). -/
+theorem result_at_most_once (o : Op) (inp : Input) (h : wf o inp = true) : (outcome o inp).AtMostOnce :=
+  safe_atMostOnce (wf_ids h) (prog_safe o inp h)
+
+/-- **No element is duplicated or silently lost**: live occurrences + destroyed live values = 1 + copies, for every element. -/
+theorem conserved (o : Op) (inp : Input) (h : wf o inp = true) : (outcome o inp).Conserved :=
+  safe_conserved (wf_ids h) (prog_safe o inp h)
+
+/-- **Move-only element types are accepted**: when every argument is an rvalue (or an in/out parameter) nothing is copied. -/
+theorem accepts_move_only (o : Op) (inp : Input) (h : wf o inp = true) (hall : (outcome o inp).AllRvalue) :
+    (outcome o inp).cp = [] :=
+  safe_acceptsMoveOnly (prog_safe o inp h) hall
+
+/-- the programs never access an element object that does not exist (any more) -/
+theorem no_out_of_bounds (o : Op) (inp : Input) (h : wf o inp = true) : (exec o inp).oob = [] :=
+  (safe_quiet (prog_safe o inp h)).2
+
+/-! ## non-vacuity: well-formed, non-trivial inputs exist and the predicates are not trivially true -/
+
+example : wf .join3 ⟨[(.rv, [1, 2]), (.lv, [11]), (.rv, [21, 22])], []⟩ = true := by decide
+example : wf .foldBreak ⟨[(.cr, [1, 2, 3]), (.rv, [11])], [1]⟩ = true := by decide
+example : wf .getOrInsert ⟨[(.io, [1, 2])], [2]⟩ = true := by decide
+
+example : (outcome .join3 ⟨[(.rv, [1, 2]), (.lv, [11]), (.rv, [21, 22])], []⟩).res
+    = [(1, true), (2, true), (11, true), (21, true), (22, true)] := by decide
+example : (outcome .join3 ⟨[(.rv, [1, 2]), (.lv, [11]), (.rv, [21, 22])], []⟩).cp = [11] := by decide
+example : (outcome .join3 ⟨[(.rv, [1, 2]), (.lv, [11]), (.rv, [21, 22])], []⟩).mv = [21, 22] := by decide
+example : (outcome .algMap ⟨[(.rv, [1, 2, 3])], []⟩).outs = [[(1, false), (2, false), (3, false)]] := by decide
+
+/-! ## refuted: what the conservation predicates exclude
+
+* a copy on the rvalue path (what `either::bind` did with the failure before fix f5622af):
+  `result_type{_either.get_failure_unsafe()}` is `xfer 0 0 .copy .res` on an rvalue argument;
+* a read after a move (what the `options::flag` constructor did before fix 986d19b):
+  both arguments are moved into the members and then compared.
+-/
+
+example : ¬ (runOn ⟨[(.rv, [1])], []⟩ [.xfer 0 0 .copy .res]).NoCopyOfRvalue := by
+  intro h
+  exact h 0 (by decide) 1 (by decide) (by decide)
+
+example : ¬ (runOn ⟨[(.rv, [1]), (.rv, [11])], []⟩
+    [.xfer 0 0 .move .res, .xfer 1 0 .move .res, .read 0 0, .read 1 0]).NoReadAfterMove := by
+  intro h
+  exact absurd (show (runOn _ _).ram = [] from h) (by decide)
+
+/-- moving the same element twice is a read after move and a second move out of the argument -/
+example : ¬ (runOn ⟨[(.rv, [1])], []⟩ [.xfer 0 0 .move .res, .xfer 0 0 .move .res]).MovedAtMostOnce := by
+  intro h
+  exact absurd (h 1 (by decide)) (by decide)
+
+/-- moving out of an lvalue argument changes it -/
+example : ¬ (runOn ⟨[(.lv, [1])], []⟩ [.xfer 0 0 .move .res]).LvalueUnchanged := by
+  intro h
+  exact absurd (h 0 .lv (by decide) (Or.inl rfl)) (by decide)
+
+/-- a filter that drops an element loses it: `Conserved` then accounts for it in `lost` -/
+example : (runOn ⟨[(.rv, [1, 2])], []⟩ [.xfer 0 0 .move .res, .xfer 0 1 .move .drop]).lost = [2] := by decide
+
 end Fcppt.C05
